@@ -29,7 +29,8 @@ def parseOp (j : Json) : Except String Op := do
       | _ => true
     if ok then pure (.register (← parseTrig j)) else pure .registerBad
   | "unregister" => pure (.unregister (← getNat j "handle"))
-  | "taskRead" => pure (.taskRead (← getNat j "i"))
+  | "taskStart" => pure (.taskStart (← getNat j "i"))
+  | "taskRead" => pure (.taskRead (← getNat j "k"))
   | "taskCall" => pure (.taskCall (← getNat j "k"))
   | "taskInstall" => pure (.taskInstall (← getNat j "k"))
   | "applyTask" => pure (.applyTask (← getNat j "i"))
@@ -40,7 +41,8 @@ def trigJson (t : Trig) : Json := Json.arr #[Json.str t.path, toJson t.line, Jso
 def trigsJson (ts : List Trig) : Json := Json.arr (ts.map trigJson).toArray
 
 def stateJson (s : St) : List (String × Json) :=
-  [("hash", optStr s.svc.hash), ("queued", toJson s.svc.queued.length), ("holding", toJson s.holding.length),
+  [("hash", optStr s.svc.hash), ("queued", toJson s.svc.queued.length), ("pre", toJson s.pre.length),
+   ("holding", toJson s.holding.length),
    ("installed", trigsJson s.h.installed), ("custom", trigsJson s.svc.custom), ("polled", trigsJson s.svc.polled),
    ("timer_alive", toJson s.timerAlive)]
 
@@ -51,7 +53,7 @@ def opJson (locked : Bool) (s : St) (op : Op) : List (String × Json) :=
   | .poll .. | .pollFail _ => [("req_hash", optStr (requestHash s.svc))]
   | .register t => [("handle", toJson (registerHandle s (some t)))]
   | .registerBad => [("handle", toJson (registerHandle s none))]
-  | .taskRead _ | .applyTask _ | .taskInstall _ | .taskCall _ => [("moved", toJson (step locked s op != s))]
+  | .taskStart _ | .taskRead _ | .applyTask _ | .taskInstall _ | .taskCall _ => [("moved", toJson (step locked s op != s))]
   | _ => []
 
 def handle (j : Json) : Except String Json := do
